@@ -259,6 +259,11 @@ def _work(arg):
     outcomes = {}
     nprog = ncase = 0
     for prog in progs:
+        if len(out_v) >= 8:
+            # this chunk has produced its counterexamples; with a broken solver every further case may cost seconds
+            # (non-termination is cut off by a processor-time limit), so the rest of the chunk is counted, not run
+            counters['programs_skipped_after_violations'] = counters.get('programs_skipped_after_violations', 0) + 1
+            continue
         forms = e2a.build_forms(prog)
         nprog += 1
         for env in e2a.environments(prog, reduced=reduced):
@@ -311,6 +316,8 @@ def explore(run, pid, tier, chunk=40):
             for kind, msg, case in out_v:
                 key = f'{pid}|e2a|{kind}|' + json.dumps(prog_text(case['prog']))
                 run.violation(key, case, msg)
+        if total.get('programs_skipped_after_violations'):
+            run.count('e2a.programs_skipped_after_violations', total['programs_skipped_after_violations'])
         run.count(f'e2a[{label}].programs', total.get('programs', 0))
         run.count(f'e2a[{label}].cases', total.get('cases', 0))
         run.count(f'e2a[{label}].executions', total.get('executions', 0))
@@ -323,6 +330,10 @@ def explore(run, pid, tier, chunk=40):
         run.traces += total.get('executions', 0)
         if progs:
             run.sample(dict(engine='e2a', set=label, program=prog_text(progs[len(progs) // 2])))
+        if len(run.violations) >= 200:
+            # the check has failed two hundred times over: the remaining program sets are not explored
+            run.count('e2a.program_sets_skipped_after_violations', 1)
+            break
 
 
 def replay_case(case, pid):
